@@ -55,6 +55,11 @@ func vf22CollectKey(f vf22Fail, opts *zoekt.SearchOptions, promoted bool, nbatch
 	if strings.HasPrefix(f.key, "prefix:") && promoted && nbatches > 1 && opts.MaxMatchDisplayCount > 0 {
 		return "collect:incremental-truncation-vs-novel-extension-promotion:match-limit"
 	}
+	if strings.HasPrefix(f.key, "prefix:") && promoted && nbatches > 1 && opts.MaxDocDisplayCount > 2 {
+		// document limit only (C22_incremental_equals_batch_doclimit_refuted); with MaxDocDisplayCount <= 2 the
+		// incremental result is proved equal to the batch result, so a failure there keeps its own key
+		return "collect:incremental-truncation-vs-novel-extension-promotion:doc-limit"
+	}
 	return f.key
 }
 
@@ -62,7 +67,7 @@ func TestVerifC22Collect(t *testing.T) {
 	r := vfNewRand(vfSeed() + 7777)
 	n := vfN(250)
 	for i := 0; i < n; i++ {
-		g := &vf22Gen{r: r, scores: map[int]bool{}}
+		g := &vf22Gen{r: r, scores: map[int]bool{}, diverse: r.Chance(35)}
 		chunkMode := r.Chance(50)
 		ctx := r.Intn(3)
 		malformed := r.Chance(8)
@@ -103,6 +108,16 @@ func TestVerifC22Collect(t *testing.T) {
 			chunkMode, ctx, well, nb, total = false, 0, true, 2, 14
 			batches = [][]zoekt.FileMatch{{mk(1, ".go", 1000, 1), mk(2, ".go", 990, 1), mk(3, ".go", 980, 3), mk(4, ".py", 950, 8)}, {mk(5, ".py", 995, 1)}}
 			opts = &zoekt.SearchOptions{MaxMatchDisplayCount: 10}
+		}
+		if i == 1 {
+			// the witness of Props/C22.v C22_incremental_equals_batch_doclimit_refuted (document limit only)
+			mk := func(id int, ext string, score float64) zoekt.FileMatch {
+				lm := zoekt.LineMatch{LineNumber: 100 + id, LineFragments: []zoekt.LineFragmentMatch{{Offset: uint32(1000 * id), MatchLength: 1}}}
+				return zoekt.FileMatch{FileName: fmt.Sprintf("d/f%d%s", id, ext), Score: score, RepositoryID: uint32(id), LineMatches: []zoekt.LineMatch{lm}}
+			}
+			chunkMode, ctx, well, nb, total = false, 0, true, 2, 6
+			batches = [][]zoekt.FileMatch{{mk(1, ".go", 1000), mk(2, ".go", 990), mk(3, ".go", 980), mk(4, ".py", 970), mk(5, ".rs", 960)}, {mk(6, ".py", 995)}}
+			opts = &zoekt.SearchOptions{MaxDocDisplayCount: 3}
 		}
 		inputs := make([][]zoekt.FileMatch, len(batches))
 		for b := range batches {
